@@ -100,6 +100,14 @@ def run(F, R, tier):
     disp = ref["dispatch"]
     if R.anchor("get_inner", gi):
         n_arms = 0
+        # the enclosing arm of each selector match (per kind of object get_inner is handed)
+        encl = {}
+        for tm in H.walk(H.body_of(gi)):
+            if tm.get("k") == "match" and not H.is_try(tm):
+                for ta in tm["arms"]:
+                    for x in H.walk(ta["body"]):
+                        if x.get("k") == "match" and not H.is_try(x):
+                            encl.setdefault(id(x), ta["body"])
         for m in H.walk(H.body_of(gi)):
             if m.get("k") != "match" or H.is_try(m):
                 continue
@@ -123,9 +131,25 @@ def run(F, R, tier):
                     calls = [c for c in H.walk(a["body"]) if c.get("k") == "mcall" and c["m"].startswith("exec_prop_")]
                     layer = H.last(H.ctor_of(H.strip(calls[0]["args"][1])) or "?") if calls else "?"
                     callee = calls[0]["callee"] if calls else None
+                    if not calls:
+                        # the arms only choose the layer (`EtherTypes::Vlan => Some(PacketPropType::Vlan)`); one call after the
+                        # match parses whatever was chosen
+                        pts = {H.last(H.ctor_of(x) or "") for x in H.walk(a["body"]) if "PacketPropType::" in (H.ctor_of(x) or "")}
+                        later = [c for c in H.walk(encl.get(id(m), {})) if c.get("k") == "mcall" and c["m"].startswith("exec_prop_") and
+                                 H.local_id(H.strip(c["args"][1])) is not None]
+                        if len(pts) == 1 and len({c["callee"] for c in later}) == 1:
+                            layer, callee = pts.pop(), later[0]["callee"]
                     got[str(val)] = (layer, callee, a.get("line"))
                 elif p.get("k") == "wild":
-                    default_null = H.render(H.strip(a["body"])) in ("Rc::new(Object::Null)", "Object::Null")
+                    bt = H.render(H.strip(a["body"]))
+                    default_null = bt in ("Rc::new(Object::Null)", "Object::Null")
+                    if bt in ("v1::None", "None"):
+                        # `_ => None`, and the value chosen is then matched: `None => Rc::new(Object::Null)`
+                        for x in H.walk(encl.get(id(m), {})):
+                            if x.get("k") == "match" and not H.is_try(x) and x is not m:
+                                for a2 in x["arms"]:
+                                    if {H.last(v) for v in H.pat_variants(a2["pat"])} == {"None"} and H.render(H.strip(a2["body"])) in ("Rc::new(Object::Null)", "Object::Null"):
+                                        default_null = True
             for val, layer in table.items():
                 n_arms += 1
                 g = got.get(val)
